@@ -482,6 +482,35 @@ package board
 //@   loop 2: invariant fpOK(fp)
 //@   loop 2: modifies fp.ix
 //@
+//@ # ---- C11 (printer): the castling field of Board.FEN() prints exactly the letters of the rights held, in
+//@ # ---- the order KQkq, and a dash exactly for an empty rights field and for an empty e.p. field.  The sites
+//@ # ---- are named by the text they write, so the contract does not depend on their order in the source.
+//@ ghost gfl uint8
+//@ ghost gfd int
+//@ func (Board).FEN
+//@   props C11
+//@   allow-extern fmt. strings. strconv.
+//@   requires gfl == 0 && gfd == 0 && b.STM <= 1 && b.Castles <= 15 && all(i, 0, 63, b.SquaresToPiece[i] <= 6)
+//@   at-call WriteString="K" requires [K] b.Castles & 1 != 0 && gfl == 0
+//@   at-call WriteString="K" sets gfl = gfl | 1
+//@   at-call WriteString="Q" requires [Q] b.Castles & 2 != 0 && gfl & 14 == 0
+//@   at-call WriteString="Q" sets gfl = gfl | 2
+//@   at-call WriteString="k" requires [k] b.Castles & 4 != 0 && gfl & 12 == 0
+//@   at-call WriteString="k" sets gfl = gfl | 4
+//@   at-call WriteString="q" requires [q] b.Castles & 8 != 0 && gfl & 8 == 0
+//@   at-call WriteString="q" sets gfl = gfl | 8
+//@   at-call WriteString="-" requires [dash] (b.Castles == 0 && gfd == 0) || b.EnPassant == 0
+//@   at-call WriteString="-" sets gfd = gfd + 1
+//@   at-call WriteByte requires [piece] p == b.SquaresToPiece[sq] && p != 0 && int(sq) == rank * 8 + file && (c == 0) == (b.Colors[0] & (1 << sq) != 0)
+//@   ensures [rights] gfl == uint8(b.Castles)
+//@   ensures [dashes] gfd == ite(b.Castles == 0, 1, 0) + ite(b.EnPassant == 0, 1, 0)
+//@   modifies gfl, gfd
+//@   nopanic
+//@   loop 1: invariant gfl == 0 && gfd == 0 && -1 <= rank && rank <= 7
+//@   loop 1: modifies sb
+//@   loop 2: invariant gfl == 0 && gfd == 0 && 0 <= rank && rank <= 7 && 0 <= iter(2) && iter(2) <= 7
+//@   loop 2: modifies sb
+//@
 //@ # ---- C11 (gate): the piece-count filter applied by `position fen` never rejects material that is
 //@ # ---- reachable by promotion (one king; promoted pieces are paid for by missing pawns)
 //@ define cntOf(b, c, p) = (b.Colors[c] & b.Pieces[p]).Count()
